@@ -336,6 +336,7 @@ for _k, _c in CONDS:
     if _k in ("if-or", "if-and", "if-eq", "if-truthy", "if-eq-nil", "if-not"):
         STMTS.append(("ternary-" + _k, "{{ 'T' if " + _c + " else 'F' }}"))
 
+# `empty` / `blank` in argument position are variable paths (see sweep()): missing variables
 KEYWORD_ARGS: list[tuple[str, str]] = [
     ("keyword-arg:append-empty", "{{ s | append: empty }}"),
     ("keyword-arg:append-blank", "{{ s | append: blank }}"),
@@ -632,9 +633,11 @@ def sweep() -> list[dict[str, Any]]:
     for kind, text in BABEL:
         for extra in variants:
             add(kind, text, complete=True, extra=extra, both=True)
-    # `empty` / `blank` are literals of the language, not data variables
+    # as a filter / keyword argument `empty` and `blank` are ordinary variable paths in
+    # this grammar (keywords only as comparison operands): the data has no such variables,
+    # so these programs are NOT complete and strict policies may raise
     for kind, text in KEYWORD_ARGS:
-        add(kind, text, complete=True, both=True)
+        add(kind, text, complete=False, both=True)
     # expressions rooted at template-local bindings; complete by construction.  The
     # dynamic partials go into PARTIALS (same names and bodies every time).
     for kind, text in locals_programs(PARTIALS):
